@@ -581,9 +581,16 @@ pub fn g_plutus_data(ctx: &mut Ctx, depth: u32) -> PlutusData {
                 let mut vals = PlutusMapValues::new();
                 let val = if i == 0 { g_plutus_data(ctx, depth - 1) } else { PlutusData::new_bytes(vec![i as u8]) };
                 vals.add(&val);
-                if i == 0 && ctx.flag() {
+                match if i == 0 { ctx.choose(3) } else { 0 } {
                     // repeated key: two values under one key
-                    vals.add(&PlutusData::new_integer(&BigInt::from(7u64)));
+                    1 => vals.add(&PlutusData::new_integer(&BigInt::from(7u64))),
+                    // the same (key, value) pair twice with another value in between: a Plutus map is an
+                    // association list, the repeat is part of the datum
+                    2 => {
+                        vals.add(&PlutusData::new_integer(&BigInt::from(7u64)));
+                        vals.add(&val);
+                    }
+                    _ => {}
                 }
                 m.insert(&key, &vals);
             }
